@@ -14,7 +14,7 @@ func init() {
 	register(&property{
 		ID:    "C09",
 		Run:   runC09,
-		Modes: []string{"deadlock"},
+		Modes: []string{"deadlock", "stacktrace"},
 		Meta: propMeta{
 			Explanation: "Static clauses of the authenticated map/set (ads, with kvstore typed wrappers resolved to the working tree) on all CFG paths: (1) the non-thread-safe trie and every mutation of the raw-key store and size happen only under the map mutex (helpers has/addSize are caller-holds), locks balanced; (2) every trie/store/codec error is tested and propagated, failure branches return non-nil errors; (3) size accounting: membership is read before the trie is mutated, +1 only on the not-present edge of Set, -1 and both deletions only on the present edge of Delete, Set mirrors every successful trie update into the raw-key store; (4) Commit stores the trie root under the root key and commits the trie on every success path; the constructor imports from the stored root only when reading it succeeded and disables the value hasher for both constructors; WasRestoredFromStorage derives from the same root key; (5) the four storage prefixes are pairwise distinct and all used; (6) the trie store adapter forwards Get/Set/Delete/Clear with parameters in order.",
 			NotDecided:  "root canonicity and collision freedom (properties of pokt-network/smt), agreement with a map model over histories, empty-value semantics of the trie",
